@@ -89,6 +89,7 @@ def run_world(world, keep=False, base_dir=None, start_from=None):
     max_inc = int(world.get("max_incarnations", 8))
     downtimes = world.get("downtimes", [])
     incs = []
+    extra_after = int(world.get("after_finish_incarnations", 0))
     first = inc
     t_wall = time.monotonic()
     try:
@@ -101,11 +102,17 @@ def run_world(world, keep=False, base_dir=None, start_from=None):
             res["t_end"] = mine[-1]["t"] if mine else t0
             incs.append(res)
             code = res["exit"]
+            if code == 0 and extra_after > 0:
+                # resume-after-finish history (C15): start again from the final checkpoint
+                extra_after -= 1
+                inc += 1
+                t0 = res["t_end"] + 1.0
+                continue
             if code in (0, 70, 71, 72, 73, 74, 99, "wall_timeout", "signaled"):
                 break
             # killed (137), signalled (77 / 128+n): restart from the durable state
             inc += 1
-            if inc - first >= max_inc:
+            if inc - first >= max_inc + int(world.get("after_finish_incarnations", 0)):
                 break
             k = inc - first - 1
             dt = downtimes[k] if k < len(downtimes) else 1.0
@@ -129,6 +136,12 @@ def event_log_digest(records):
     for r in records:
         if r["k"] in ("exit",):
             r = {k: v for k, v in r.items() if k != "trace"}
+        if "sha" in r and r["k"] in ("ckpt_done",):
+            # pickled torch tensors embed their storage address: the checkpoint's
+            # bytes (not its content) differ from process to process
+            r = {k: v for k, v in r.items() if k != "sha"}
+        if r["k"] == "start" and "resume_sha" in r:
+            r = {k: v for k, v in r.items() if k != "resume_sha"}
         m.update(json.dumps(r, sort_keys=True).encode())
     return m.hexdigest()
 
